@@ -8,6 +8,18 @@ PROPS = [json.loads(l)["id"] for l in open(os.path.join(ROOT, "properties.jsonl"
 TRUST = "CPython 3.12.1 (/venv), the harness in /verif/vlib and the reference models named in DESIGN.md"
 
 CHECKS = {
+    "C01": dict(
+        category="exploration", engine="E1",
+        technique="exhaustive deviation-bounded enumeration of grammar derivations x all dialects x option sets; round-trip fixpoint oracle; exhaustive format-string enumeration against a longest-match reference",
+        text="Every statement derivable from the tagged core grammar with at most k non-default constructs (k=1 in all 34 dialects "
+             "under 4 generator option sets, k=2 in the base dialect; thorough: k=2 everywhere) is parsed, generated, re-parsed and "
+             "re-generated in the same dialect; the second text must equal the first, in the base dialect the trees must be equal and "
+             "time-format literals unchanged. Every time-format string of <= 3 (4) atoms over each dialect's own mapping keys, their "
+             "non-key prefixes and separators is converted by format_time and compared with an independent greedy longest-match "
+             "reference. Complete for all interactions of <= k constructs; counterexamples are minimal.",
+        note="statements a dialect refuses to parse are outside the space; violations whose tag set strictly contains another "
+             "violation's tag set in the same dialect are counted but not reported separately. " + TRUST,
+        design="2/C01"),
     "C18": dict(
         category="model_checking", engine="E2",
         technique="explicit-state BFS over operation histories on the real MappingSchema, reference-model agreement on every transition",
